@@ -33,3 +33,4 @@ func verifIteB(c bool, a, b bool) bool
 func verifStrSame(a, b string) bool
 func verifNondetKey(name string) uint64
 func verifNondetVal(name string) uint64
+func verifErrHas(err error, s string) bool
